@@ -8,6 +8,7 @@ import (
 	"os"
 	"os/exec"
 	"path/filepath"
+	"regexp"
 	"sort"
 	"strconv"
 	"strings"
@@ -182,6 +183,48 @@ func c11variants(doc *jmut.Node, pools map[string][]string, pick func(n int) int
 // do not allow: wherever the library accepts one, the schema has to as well.
 var c11hostile = []string{"Litres", "per-litre", "lower", "UPPER", "Ab1", "12", "a b", "x_y", "A.B", "a/b", "-", "A-", "é", " x", "x ", "AAAAAAAAAAAAAAAAAAAAAAAAAAAAAAAAAAAAAAAAAAAAAAAAAAAAAAAAAAAAAAAAAAAAAAAAAAAAA", "2024-13-45", "0"}
 
+// c11boundary are well-formed key-like and code-like strings whose lengths sit on
+// and around every length limit the published schemas state (filled by runC11
+// from data/schemas before any sweep runs).
+var c11boundary []string
+var c11overLimit = map[string]bool{}
+
+func c11boundaryStrings(schemaDir string) []string {
+	lens := map[int]bool{}
+	re := regexp.MustCompile(`"(?:max|min)Length":\s*([0-9]+)`)
+	_ = filepath.Walk(schemaDir, func(path string, info os.FileInfo, err error) error {
+		if err != nil || info.IsDir() || !strings.HasSuffix(path, ".json") {
+			return nil
+		}
+		b, rerr := os.ReadFile(path)
+		if rerr != nil {
+			return nil
+		}
+		for _, m := range re.FindAllSubmatch(b, -1) {
+			if n, aerr := strconv.Atoi(string(m[1])); aerr == nil && n > 1 && n < 4096 {
+				lens[n] = true
+			}
+		}
+		return nil
+	})
+	var ls []int
+	for n := range lens {
+		ls = append(ls, n)
+	}
+	sort.Ints(ls)
+	var out []string
+	for _, n := range ls {
+		for _, l := range []int{n - 1, n, n + 1, n + 2} {
+			k, cd := "k"+strings.Repeat("a", l-2)+"z", "C"+strings.Repeat("A", l-2)+"9"
+			out = append(out, k, cd)
+			if l == n+1 {
+				c11overLimit[k], c11overLimit[cd] = true, true
+			}
+		}
+	}
+	return out
+}
+
 // c11freeText keys hold prose; two hostile values are enough there.
 var c11freeText = map[string]bool{"name": true, "alias": true, "text": true, "description": true, "reason": true, "notes": true, "street": true, "street_extra": true, "locality": true, "region": true, "label": true, "title": true, "detail": true, "given": true, "surname": true, "val": true}
 
@@ -207,6 +250,8 @@ func c11generic(doc *jmut.Node, pick func(n int) int, limit int, under string) [
 		vals := c11hostile
 		if c11freeText[key] || (len(p) > 1 && p[len(p)-2].Key == "meta") {
 			vals = c11hostile[:2]
+		} else if len(c11boundary) > 0 {
+			vals = append(append([]string{}, c11hostile...), c11boundary...)
 		}
 		for _, v := range vals {
 			if v != n.S {
@@ -233,8 +278,15 @@ func c11generic(doc *jmut.Node, pick func(n int) int, limit int, under string) [
 		// extension values (each with its own value list or pattern) are always
 		// taken in full; the rest is sampled
 		var keep, rest []cand
+		seenName := map[string]bool{}
 		for _, cd := range cands {
+			name := cd.p[len(cd.p)-1].Key + "|" + cd.v
 			if len(cd.p) > 1 && cd.p[len(cd.p)-2].Key == "ext" {
+				keep = append(keep, cd)
+			} else if c11overLimit[cd.v] && !seenName[name] {
+				// one character more than a published length limit: always tried once
+				// per member name of the document
+				seenName[name] = true
 				keep = append(keep, cd)
 			} else {
 				rest = append(rest, cd)
@@ -269,6 +321,8 @@ func runC11(c *Ctx) {
 	}
 	script := filepath.Join(ev.Root(), "py", "schema_monitor.py")
 	schemaDir := filepath.Join(ev.Repo(), "data", "schemas")
+	c11boundary = c11boundaryStrings(schemaDir)
+	c.R.Set("length_boundary_strings", len(c11boundary))
 	// (1) schema files
 	out, err := runCmd(ev.Root(), 10*time.Minute, py, script, "check", schemaDir)
 	if err != nil {
